@@ -73,6 +73,11 @@ func c05Collections(cfg *core.Config) []Operand {
 		for _, m := range coreValues() {
 			add(m)
 		}
+		// arrays with runs of holes: count < span, and shifting by count lands in a hole (no collision)
+		add(seqOf("@item", 0, 1, hole, hole, 4))
+		add(seqOf("@item", 0, 1, hole, hole, hole, 5, 6))
+		add(seqOf("@item", 1, 1, hole, hole, 4))
+		add(seqOf("@item", 0, 7))
 		add(core.MStr("abcab"))
 		add(core.MArr(num(1), core.MStr("x"), mset(num(2)), mtup("a", num(1))))
 		add(core.MDict(core.MStr("a"), core.MArr(num(1)), core.MStr("b"), core.MStr("s"), num(3), mset()))
